@@ -2,6 +2,9 @@ module verif
 
 go 1.26.8
 
-require github.com/netflix/rend v0.0.0
+require (
+	github.com/anishathalye/porcupine v1.3.0
+	github.com/netflix/rend v0.0.0
+)
 
 replace github.com/netflix/rend => /repo
